@@ -54,3 +54,24 @@ func specSubSat(cur uint64, n int) uint64 {
 //@      sameSlice(r.unorderedChunks, old(r.unorderedChunks)[old(len(r.unorderedChunks))-len(r.unorderedChunks):])
 //@   ensures#others-untouched{C07} sameSlice(r.ordered, old(r.ordered)) && sameSlice(r.unordered, old(r.unordered)) && r.nextSSN == old(r.nextSSN)
 //@   safety C03
+
+// ---- C11: a chunk is charged to the receive buffer once, when (and only when) it is taken in ----
+
+//@ func reassemblyQueue.pushWithError
+//@   requires#chunk chunk != nil
+//@   ensures#charged-at-most-once{C11} r.nBytes == old(r.nBytes) || r.nBytes == old(r.nBytes)+uint64(len(chunk.userData))
+//@   ensures#refused-chunks-are-not-charged{C11} result1 != nil ==> r.nBytes == old(r.nBytes)
+//@   ensures#foreign-stream-not-charged{C11} !old(chunk.isIData()) && old(chunk.streamIdentifier != r.si) ==> r.nBytes == old(r.nBytes) && !result0
+//@   tags C11
+
+//@ func reassemblyQueue.pushUnorderedIData
+//@   requires#chunk chunk != nil
+//@   ensures#charged-at-most-once{C11} r.nBytes == old(r.nBytes) || r.nBytes == old(r.nBytes)+uint64(len(chunk.userData))
+//@   ensures#refused-chunks-are-not-charged{C11} result1 != nil ==> r.nBytes == old(r.nBytes)
+//@   tags C11
+
+//@ func reassemblyQueue.pushOrderedIData
+//@   requires#chunk chunk != nil
+//@   ensures#charged-at-most-once{C11} r.nBytes == old(r.nBytes) || r.nBytes == old(r.nBytes)+uint64(len(chunk.userData))
+//@   ensures#refused-chunks-are-not-charged{C11} result1 != nil ==> r.nBytes == old(r.nBytes)
+//@   tags C11
